@@ -988,6 +988,23 @@ func (self *Analyzer) callArgs(fnType ast.FunctionType, args pAst.CallArgs, base
 	}
 }
 
+// Whether the expression is the name of a function definition of this module or of an imported module.
+func (self *Analyzer) namesProgramFunction(base ast.AnalyzedExpression) bool {
+	if base.Kind() != ast.IdentExpressionKind {
+		return false
+	}
+
+	ident := base.(ast.AnalyzedIdentExpression).Ident.Ident()
+
+	// A variable of this name hides the function.
+	if variable, _, found := self.currentModule.getVar(ident); found {
+		return variable.IsProgramFunction
+	}
+
+	_, found := self.currentModule.getFunc(ident)
+	return found
+}
+
 // TODO: also forbid invoking a spawn fn which returns a closure.
 // TODO: also completely rewrite this function, it is very obfuscated.
 func (self *Analyzer) callExpression(node pAst.CallExpression) ast.AnalyzedCallExpression {
@@ -1002,6 +1019,16 @@ func (self *Analyzer) callExpression(node pAst.CallExpression) ast.AnalyzedCallE
 	}
 
 	var arguments ast.AnalyzedCallArgs
+
+	// A new thread starts in a function of the program: a function value (it may read the variables of the thread
+	// which made it), a builtin or a host function cannot be started like this.
+	if node.IsSpawn && base.Type().Kind() == ast.FnTypeKind && !self.namesProgramFunction(base) {
+		self.error(
+			"Only a function of the program can be spawned",
+			[]string{"`spawn` starts a function which is defined with `fn name(...)`, in this module or in an imported one"},
+			base.Span(),
+		)
+	}
 
 	switch base.Type().Kind() {
 	case ast.NeverTypeKind, ast.UnknownTypeKind:
